@@ -80,6 +80,12 @@ func init() {
 			}
 			return 12000
 		},
+		TimeoutSec: func(t string) int {
+			if t == ev.Thorough {
+				return 5400
+			}
+			return 900
+		},
 		Required: []string{"stage_json", "stage_binary_round", "stage_raw_json", "stage_json_export", "stage_binary_born", "verify_valid", "verify_invalid", "raw_fallback_reached", "stored_as_rlp", "change_id_differs", "change_same_phrase_same_id", "class_canonical", "class_noncanonical", "class_ambiguous", "style_variants_agree", "concurrent_parses", "concurrent_roundtrips", "concurrent_goroutine_runs"},
 		Assumptions: []string{
 			"the ICON v3 hash rule is: sha3-256 of 'icx_sendTransaction.' + sorted key.value walk, strings escaped at \\ { } [ ] . , null = \\0, {..} for objects, [..] for arrays, members signature and txHash left out (reference in lib/sig/icon.go, written from the format rules; /repo/doc has no text for the rule, the Java SDK serializer in /repo/sdk agrees with it)",
